@@ -1,1 +1,14 @@
 // ===== U-SUBST: no extra vocabulary =====
+
+// ---- extend: the rules after inserting the first n elements (all of them accepted) ----
+pub open spec fn all_parsed(items: Seq<(SynPath, AbsolutePath)>, n: int) -> bool {
+    forall|j: int| 0 <= j < n ==> parsed((#[trigger] items[j]).0, items[j].1.0) is Ok
+}
+pub open spec fn rules_after(r0: Map<Seq<Seq<char>>, Substitute>, items: Seq<(SynPath, AbsolutePath)>, n: int) -> Map<Seq<Seq<char>>, Substitute>
+    decreases n
+{
+    if n <= 0 { r0 } else {
+        let p = parsed(items[n - 1].0, items[n - 1].1.0)->Ok_0;
+        rules_after(r0, items, n - 1).insert(key_of(p.0), p.1)
+    }
+}
